@@ -1,6 +1,7 @@
 // Native replay for ElectricField and the impedance models: real classes vs naive double-precision DFT oracle.
 // usage: ef_replay wake <N> <nb_buckets_pattern e.g. 101> <spacing> <nmax> <seed>
 //        ef_replay z <n>
+//        ef_replay zfile   impedance files: empty, malformed, trailing newline, incomplete last line -> number of samples read
 //        ef_replay factory <n> <gap> <use_csr> <s> <xi> <inner_radius> <file 0|1> <R_bend> <frev>
 // exit 0 agree, 1 mismatch, 3 usage
 #include <cstdio>
@@ -53,6 +54,21 @@ int main(int argc, char** argv) {
         Impedance sum(n, 1e12); sum += FreeSpaceCSR(n, 9e6, 1e12); sum += ResistiveWall(n, 9e6, 1e12, 33.0, 1e6, 0.0, 0.015);
         chk("sum", sum);
         printf("z: %d mismatches (n=%zu)\n", bad, n);
+        return bad ? 1 : 0;
+    }
+    if (mode == "zfile" && argc == 2) {
+        // every complete line "n Re Im" with a new harmonic number is one sample; nothing else may produce a sample
+        struct { const char* name; const char* text; size_t want; } cases[] = {
+            {"empty", "", 0}, {"only_newline", "\n", 0}, {"malformed", "abc def\n", 0}, {"two_lines", "0 1 2\n1 3 4\n", 2},
+            {"no_trailing_newline", "0 1 2\n1 3 4", 2}, {"incomplete_last_line", "0 1 2\n1 3\n", 1}, {"repeated_harmonic", "0 1 2\n0 5 6\n1 3 4\n", 2}};
+        for (auto& c : cases) {
+            std::string fn = std::string("/tmp/vf_zfile_") + c.name + ".dat";
+            FILE* f = fopen(fn.c_str(), "w"); fputs(c.text, f); fclose(f);
+            Impedance z(fn, 1e12);
+            if (z.size() != c.want) { printf("MISMATCH impedance file '%s': %zu samples read, %zu complete lines in the file\n", c.name, z.size(), c.want); bad++; }
+            remove(fn.c_str());
+        }
+        printf("zfile: %d mismatches\n", bad);
         return bad ? 1 : 0;
     }
     if (mode == "factory" && argc == 11) {
